@@ -10,20 +10,23 @@ from util import call
 
 REQUIRED_THEOREMS = ['Usid.C13.fresh_monotone', 'Usid.C13.exactly_that_base', 'Usid.C13.history_all_succeed',
                      'Usid.C13.lookup_exact', 'Usid.C13.provenance']
-RULE = ('histories (quick: length <= 8 random; thorough: also all histories of length <= 3 over a reduced vocabulary) of '
+RULE = ('[also: tool names with a trailing underscore / surrounding blanks, indices at the 009/099/999 boundaries, a dataset at a results-style name, results created for like-named datasets of the parent group itself (decoys), the source handed over as a USIDataset, a File object as parent] histories (quick: length <= 8 random; thorough: also all histories of length <= 3 over a reduced vocabulary) of '
         'create_indexed_group / create_results_group (default placement, an explicit parent group elsewhere in the same file, '
         'a parent group in another file) / deletions over a name vocabulary closed under prefix and '
         'substring relations, with sibling groups and non-group objects present; non-trivial = at least one create '
         'whose base is a prefix/substring of another present name')
 BASES = ['A', 'A_', 'A_B', 'A_A', 'B', 'AB', 'A_0']
 DSETS = ['Raw', 'Raw_Data', 'Data', 'aw']
-TOOLS = ['Fit', 'Fitter', 'it', 'Fit_x', 'Fi-t', 'Fit_2']
+TOOLS = ['Fit', 'Fitter', 'it', 'Fit_x', 'Fi-t', 'Fit_2', 'Fit_', ' Fit ']
 SIBLINGS = [('A_B_000', 'group'), ('A_A_005', 'group'), ('A_x', 'group'), ('A_7', 'group'), ('B_000', 'dataset'),
-            ('A_001', 'dataset'), ('AB_0_1', 'group'), ('A_0_003', 'group'), ('Raw_Data-Fitter_002', 'group')]
+            ('A_001', 'dataset'), ('AB_0_1', 'group'), ('A_0_003', 'group'), ('Raw_Data-Fitter_002', 'group'),
+            # two- and three-digit boundaries, a non-group object at a results-style name
+            ('A_009', 'group'), ('A_099', 'group'), ('B_999', 'group'), ('Raw-Fit_009', 'group'), ('Data-it_099', 'group'),
+            ('Raw-Fit_001', 'dataset')]
 
 
 def norm_tool(t):
-    return t.replace('-', '_')
+    return t.strip().replace('-', '_')
 
 
 def generate(seed, tier):
@@ -31,7 +34,7 @@ def generate(seed, tier):
     cases = []
     for i in range(n_cases):
         rng = derived_rng(seed, 'C13', i)
-        initial = [list(s) for s in SIBLINGS if rng.random() < 0.35]
+        initial = [list(s) for s in SIBLINGS if rng.random() < 0.3]
         ops = []
         created = []
         for _ in range(rng.randint(1, 8)):
@@ -47,7 +50,14 @@ def generate(seed, tier):
         cases.append({'initial': initial, 'ops': ops, 'same': same, 'sibling': sibling,
                       # ... which holds datasets carrying the same leaf names as the sources (the standard layout:
                       # results of Channel_000/Raw_Data placed in Channel_001, which has its own Raw_Data)
-                      'decoy': sibling and rng.random() < 0.5})
+                      'decoy': sibling and rng.random() < 0.5,
+                      # the source handed over as a USIDataset; the parent of another file being the File object itself
+                      'as_usid': rng.random() < 0.3, 'file_parent': rng.random() < 0.5})
+        if cases[-1]['decoy']:
+            # results are also created for the like-named datasets of the parent group itself
+            for op in cases[-1]['ops']:
+                if op['op'] == 'results' and rng.random() < 0.4:
+                    op['of_decoy'] = True
     if tier == 'thorough':
         vocab = [{'op': 'indexed', 'base': b} for b in ('A', 'A_B', 'A_A')] + \
                 [{'op': 'results', 'dset': d, 'tool': t} for d in ('Raw', 'Raw_Data') for t in ('Fit', 'Fitter')] + \
@@ -83,10 +93,15 @@ def run_impl(inp, work):
         anc = {'Position_Indices': pi, 'Position_Values': pv, 'Spectroscopic_Indices': si, 'Spectroscopic_Values': sv}
         P = f.create_group('P')
         mains = {d: _mk_main(P, d, anc) for d in DSETS}
-        parent = (f.create_group('Archive') if inp.get('sibling') else P) if inp['same'] else f2.create_group('Q')
+        parent = (f.create_group('Archive') if inp.get('sibling') else P) if inp['same'] else \
+            (f2 if inp.get('file_parent') else f2.create_group('Q'))
+        decoys = {}
         if inp.get('decoy'):
             for d in DSETS:
-                _mk_main(parent, d, anc)
+                decoys[d] = _mk_main(parent, d, anc)
+        if inp.get('as_usid'):
+            from pyUSID import USIDataset
+            mains = {d: USIDataset(v) for d, v in mains.items()}
         for name, kind in inp['initial']:
             if kind == 'group':
                 parent.create_group(name)
@@ -99,7 +114,10 @@ def run_impl(inp, work):
                 r = call(hdf_utils.create_indexed_group, parent, op['base'])
             elif op['op'] == 'results':
                 kw = {} if (inp['same'] and not inp.get('sibling')) else {'h5_parent_group': parent}
-                r = call(hdf_utils.create_results_group, mains[op['dset']], op['tool'], **kw)
+                if op.get('of_decoy') and op['dset'] in decoys:
+                    r = call(hdf_utils.create_results_group, decoys[op['dset']], op['tool'])      # default placement
+                else:
+                    r = call(hdf_utils.create_results_group, mains[op['dset']], op['tool'], **kw)
             else:
                 groups = [k for k in parent.keys() if isinstance(parent[k], h5py.Group)]
                 if groups:
@@ -148,7 +166,10 @@ def _resolve_ops(inp, obs):
         if op['op'] == 'del':
             out.append({'op': 'del', 'name': rec.get('ok') or '__none__'})
         elif op['op'] == 'results':
-            out.append({'op': 'results', 'dset': op['dset'], 'tool': op['tool'], 'same': inp['same']})
+            # (sidpy's argument validation strips surrounding blanks before the library sees the name)
+            of_decoy = bool(op.get('of_decoy')) and bool(inp.get('decoy'))
+            out.append({'op': 'results', 'dset': op['dset'], 'tool': op['tool'].strip(), 'same': inp['same'],
+                        'sid': ('/Archive/' if of_decoy else '/P/') + op['dset']})
         else:
             out.append(op)
     return out
@@ -185,11 +206,13 @@ def oracle(inp, obs):
         if sorted(rec['before'] + [rec['ok']]) != rec['after']:
             fails.append('frame: existing members changed: before %s after %s' % (rec['before'], rec['after']))
         if op['op'] == 'results':
-            tags[rec['ok']] = (op['dset'], norm_tool(op['tool']))
+            of_decoy = bool(op.get('of_decoy')) and bool(inp.get('decoy'))
+            src_path = ('/Archive/' if of_decoy else '/P/') + op['dset']
+            tags[rec['ok']] = (('decoy:' if of_decoy else '') + op['dset'], norm_tool(op['tool']))
             if rec.get('tool_attr') != norm_tool(op['tool']):
                 fails.append('provenance-tool: tool attribute %r, expected %r' % (rec.get('tool_attr'), norm_tool(op['tool'])))
-            if inp['same'] and rec.get('source') != '/P/' + op['dset']:
-                fails.append('provenance-source: source_000 is %r, expected /P/%s' % (rec.get('source'), op['dset']))
+            if inp['same'] and rec.get('source') != src_path:
+                fails.append('provenance-source: source_000 is %r, expected %s' % (rec.get('source'), src_path))
     for key, got in obs['find'].items():
         d, t = key.split('|')
         want = sorted(n for n, tg in tags.items() if tg == (d, norm_tool(t)) and n in obs['listing'])
@@ -201,9 +224,11 @@ def oracle(inp, obs):
         for n, tg in tags.items():
             if inp.get('sibling') and n in initial_names:
                 continue        # a group left elsewhere by an earlier session records no source: nothing to recover
-            if n in obs['sources'] and (obs['sources'][n].get('ok') != tg[0] or
-                                        obs['sources'][n].get('path', '/P/' + tg[0]) != '/P/' + tg[0]):
-                fails.append('source-recovery: get_source_dataset(%s) gave %s, expected /P/%s' % (n, obs['sources'][n], tg[0]))
+            leaf = tg[0].split(':')[-1]
+            want_path = ('/Archive/' if tg[0].startswith('decoy:') else '/P/') + leaf
+            if n in obs['sources'] and (obs['sources'][n].get('ok') != leaf or
+                                        obs['sources'][n].get('path', want_path) != want_path):
+                fails.append('source-recovery: get_source_dataset(%s) gave %s, expected %s' % (n, obs['sources'][n], want_path))
     return fails
 
 
@@ -220,7 +245,7 @@ def model_requests_obs(inp, obs):
     init = [{'name': n, 'kind': k} for n, k in inp['initial']]
     if inp['same'] and (not inp.get('sibling') or inp.get('decoy')):
         init = init + [{'name': d, 'kind': 'dataset'} for d in DSETS]
-    queries = [{'dset': d, 'tool': t} for d in DSETS for t in TOOLS]
+    queries = [{'dset': d, 'tool': t.strip(), 'same': bool(inp['same']), 'sid': '/P/' + d} for d in DSETS for t in TOOLS]
     return [{'op': 'grp.run', 'initial': init, 'ops': _resolve_ops(inp, obs), 'queries': queries,
              'sources': sorted(obs['sources'].keys())}]
 
